@@ -123,7 +123,7 @@ def events():
             ("remove_trait", "c"), ("remove_trait", "l"),
             ("remove_trait", "zz"), ("trait_set",), ("reset_traits",),
             ("traits_call",), ("trait_get",), ("trait_names",),
-            ("clone",)]
+            ("clone",), ("copy_from_sibling",), ("copy_to_fresh",)]
     return evs
 
 
@@ -303,6 +303,12 @@ def apply(ctx, w, ev, hist, check):
         a.copyable_trait_names()
     elif k == "clone":
         a.clone_traits()
+    elif k == "copy_from_sibling":
+        # takes the sibling's values; the sibling must stay as it is
+        a.copy_traits(w.sibs[0][1] if isinstance(a, type(w.sibs[0][1]))
+                      else w.sibs[1][1], traits=["l", "d"])
+    elif k == "copy_to_fresh":
+        type(a)().copy_traits(a)
     return good
 
 
